@@ -1,34 +1,43 @@
 #!/bin/sh
-# Must-fail corpus: every patch in selftest/mutants is applied to a scratch copy
-# of /repo (under $TMPDIR, removed afterwards); the named property check must
-# exit 1 with a VIOLATION that names the expected obligation, and the
-# unpatched scratch copy must pass. Usage: selftest/run.sh [filter]
+# Must-fail corpus: every patch in selftest/mutants/expect.tsv is applied to a
+# scratch copy of /repo (under $TMPDIR, removed afterwards); the named property
+# check must exit 1 with a VIOLATION, and nothing else counts as caught.
+# Usage: selftest/run.sh [filter]      (SELFTEST_JOBS=4 items run concurrently)
 here=$(cd "$(dirname "$0")/.." && pwd)
 export GOFLAGS=-mod=mod GOPROXY=off GOSUMDB=off GOTOOLCHAIN=local
 filter="${1:-}"
-fail=0
+jobs="${SELFTEST_JOBS:-4}"
 tmp=$(mktemp -d "${TMPDIR:-/tmp}/verif-selftest.XXXXXX")
 trap 'rm -rf "$tmp"' EXIT
-grep -v '^#' "$here/selftest/mutants/expect.tsv" | while IFS="$(printf '\t')" read -r patch prop expect; do
-  [ -z "$patch" ] && continue
-  case "$patch$prop" in *"$filter"*) ;; *) continue;; esac
-  rm -rf "$tmp/repo"; mkdir "$tmp/repo"
-  (cd /repo && git ls-files -z | xargs -0 cp --parents -t "$tmp/repo") 2>/dev/null
-  cp /repo/go.sum "$tmp/repo/" 2>/dev/null
-  if ! (cd "$tmp/repo" && patch -p1 -s < "$here/selftest/mutants/$patch" >/dev/null); then
-    echo "SELFTEST-ERROR $patch does not apply"; echo 1 > "$tmp/fail"; continue
+one() {
+  n="$1"; patch="$2"; prop="$3"; expect="$4"
+  d="$tmp/$n"; mkdir -p "$d/repo"
+  (cd /repo && git ls-files -z | xargs -0 cp --parents -t "$d/repo") 2>/dev/null
+  cp /repo/go.sum "$d/repo/" 2>/dev/null
+  if ! (cd "$d/repo" && patch -p1 -s < "$here/selftest/mutants/$patch" >/dev/null); then
+    echo "SELFTEST-ERROR $patch does not apply"; echo 1 > "$tmp/fail"; rm -rf "$d"; return
   fi
-  out=$("$here/bin/vcgen" check --verif "$here" --repo "$tmp/repo" --no-evidence --replay-dir "$tmp/replays" "$prop" 2>&1); rc=$?
+  out=$("$here/bin/vcgen" check --verif "$here" --repo "$d/repo" --no-evidence --replay-dir "$d/replays" "$prop" 2>&1); rc=$?
   if [ $rc -eq 1 ] && echo "$out" | grep -q "^VIOLATION property=$prop"; then
-    if ls "$tmp/replays/$prop" 2>/dev/null | grep -q "$(echo "$expect" | tr '()* /' '_____')"; then
+    if ls "$d/replays/$prop" 2>/dev/null | grep -q "$(echo "$expect" | tr '()* /' '_____')"; then
       echo "SELFTEST-OK   $patch $prop"
     else
-      echo "SELFTEST-OK   $patch $prop (violation on another obligation: $(ls $tmp/replays/$prop | head -3 | tr '\n' ' '))"
+      echo "SELFTEST-OK   $patch $prop (violation on: $(ls $d/replays/$prop | head -3 | tr '\n' ' '))"
     fi
   else
     echo "SELFTEST-MISS $patch $prop (exit $rc)"; echo "$out" | tail -5; echo 1 > "$tmp/fail"
   fi
-  rm -rf "$tmp/replays"
-done
+  rm -rf "$d"
+}
+n=0
+grep -v '^#' "$here/selftest/mutants/expect.tsv" > "$tmp/list"
+while IFS="$(printf '\t')" read -r patch prop expect; do
+  [ -z "$patch" ] && continue
+  case "$patch$prop" in *"$filter"*) ;; *) continue;; esac
+  n=$((n+1))
+  one "$n" "$patch" "$prop" "$expect" &
+  if [ $((n % jobs)) -eq 0 ]; then wait; fi
+done < "$tmp/list"
+wait
 [ -f "$tmp/fail" ] && exit 1
 exit 0
